@@ -1,5 +1,5 @@
 """C05 — each batch is flushed once, highest priority first; every item is answered."""
-from ..lib import mach, machgen
+from ..lib import mach, machgen, machmon
 
 RULE = ("generated programs over 2-3 batch kinds with arbitrary item counts, get_priority overrides (base+len, base-len, "
         "constant, ties), flush bodies that succeed / raise before item k / skip items / set item errors, yield-only and "
@@ -36,5 +36,48 @@ _KEPT_FLUSHED = {
     "params": {"kinds": {}, "keep": True},
 }
 
+# A flush body that makes a synchronous call of an @asynq function blocking on an item of ANOTHER batch kind
+# (params.kinds[k]["nested"] = [kind2, key, action]): the scheduler runs re-entrantly while batch k is being flushed.
+# This scenario class is OUTSIDE the Coq model (Machine.flush_batch is a function of the state): no correspondence,
+# only the program-independent C05 monitors of machmon.analyse_flush_nesting speak about these cases.
+def _reentrant_case(n0, n1, prio0=None):
+    leaves = [{"new": {"task": [{"op": "yield", "x": "a%d" % i, "s": {"new": {"item": [0, i, {"set": i}]}}},
+                                {"op": "return", "e": {"var": "a%d" % i}}]}} for i in range(n0)]
+    leaves += [{"new": {"task": [{"op": "yield", "x": "b%d" % i, "s": {"new": {"item": [1, 10 + i, {"set": 10 + i}]}}},
+                                 {"op": "return", "e": {"var": "b%d" % i}}]}} for i in range(n1)]
+    k0 = {"nested": [1, 99, {"set": 99}]}
+    if prio0 is not None:
+        k0["prio"] = prio0
+    return {"roots": [[{"op": "yield", "x": "x1", "s": {"tuple": leaves}}, {"op": "return", "e": {"var": "x1"}}]],
+            "params": {"kinds": {"0": k0}, "reentrant": True}}
+
+
+_REENTRANT = [_reentrant_case(3, 1), _reentrant_case(2, 0), _reentrant_case(1, 2, ["const", 5, 0])]
+
+
+def _is_reentrant(c):
+    return bool(c.get("params", {}).get("reentrant"))
+
+
+def _extra_gen(rng, tier):
+    out = []
+    for _ in range(12 if tier == "quick" else 200):
+        g = machgen.Gen(rng, **dict(_base, name="reentrant", p_sync=rng.choice([0, 0.2]), p_flush_raise=0.1))
+        c = g.case()
+        ks = c.setdefault("params", {}).setdefault("kinds", {})
+        k = str(rng.randrange(2))
+        ks.setdefault(k, {})["nested"] = [1 - int(k), 90 + rng.randrange(3), rng.choice([{"set": 7}, {"err": 3}, "skip"])]
+        if rng.random() < 0.3:
+            ks.setdefault(str(1 - int(k)), {})["nested"] = [int(k), 95, {"set": 8}]
+        c["params"]["reentrant"] = True
+        out.append((c, {"profile": "reentrant"}))
+    return out
+
+
+def _extra_monitors(c, io, build):
+    return machmon.analyse_flush_nesting(c, io) if _is_reentrant(c) else []
+
+
 mach.install(globals(), "C05", ("EvBefore", "EvFlush", "EvItemDone", "EvAfter", "EvIllegal"), ("C05:",), PROFILES,
-             n_quick=300, n_thorough=5000, nontrivial=_nontrivial, level="proof", corpus=[_KEPT_FLUSHED])
+             n_quick=300, n_thorough=5000, nontrivial=_nontrivial, level="proof", corpus=[_KEPT_FLUSHED] + _REENTRANT,
+             impl_only=_is_reentrant, extra_gen=_extra_gen, extra_monitors=_extra_monitors)
